@@ -251,6 +251,30 @@ def job_save(job):
     say({"done": True})
 
 
+def job_resave(job):
+    """one process: save model a to the path, then model b of the SAME architecture (same file size, other gates) to the same path; report
+    what each compiling instance computes.  Another process then loads the path (job reload-lib)."""
+    outs = []
+    for mid in job["models"]:
+        m = model_by_id(mid, job["kind"])
+        spec = nets.extract(m)
+        rows = probe(int(np.prod(spec["input_shape"])), 100)
+        net = compiled.build(m, job["W"])
+        compiled.compile_net(net, save=job["lib_path"])
+        outs.append(compiled.forward(net, np.array(rows, dtype=bool).reshape(len(rows), *spec["input_shape"]).tolist()))
+    say({"compiled": outs, "input_shape": spec["input_shape"], "k": spec["k"], "n_out": len(outs[0][0])})
+    say({"done": True})
+
+
+def job_reload_lib(job):
+    import torchlogix.compiled_model as CM
+    rows = probe(int(np.prod(job["input_shape"])), 100)
+    kw = {} if job["k"] else {"output_size": job["n_out"]}
+    h = CM.CompiledLogicNet.load(job["lib_path"], tuple(job["input_shape"]), job["k"], job["W"], **kw)
+    say({"compiled": compiled.forward(h, np.array(rows, dtype=bool).reshape(len(rows), *job["input_shape"]).tolist())})
+    say({"done": True})
+
+
 def job_reload(job):
     """process B: another seed, RNG advanced arbitrarily; rebuild with the same constructor arguments, load, evaluate."""
     import torchlogix.compiled_model as CM
@@ -323,4 +347,4 @@ def rebuild_like(m):
 if __name__ == "__main__":
     job = json.load(open(sys.argv[1]))
     {"history": job_history, "threads": job_threads, "save": job_save, "reload": job_reload,
-     "recompile-loaded": job_recompile_loaded, "concurrent-save": job_concurrent_save, "unique-at-scale": job_unique_at_scale}[job["kind_of_job"]](job)
+     "resave": job_resave, "reload-lib": job_reload_lib, "recompile-loaded": job_recompile_loaded, "concurrent-save": job_concurrent_save, "unique-at-scale": job_unique_at_scale}[job["kind_of_job"]](job)
